@@ -258,5 +258,50 @@ theorem fit_mono (nx g g' : ℝ) (h1 : g ≤ g') (h2 : g' ≤ nx) :
   have := div_le_div_of_nonneg_right this (Real.sqrt_nonneg nx)
   linarith
 
+/-! ### run-level facts -/
+
+theorem tuckerAls_run_of_ok {nvecs : Nat → Dense ℝ → Nat → Nat → Mat ℝ} {uniform : Nat → Nat → Nat → Mat ℝ}
+    {X : Dense ℝ} {rank : List Nat} {stoptol : ℝ} {maxiters : Int} {dimorder : Option (List Nat)} {init : Init ℝ}
+    {out : TaOut ℝ} (h : tuckerAls realOps nvecs uniform X rank stoptol maxiters dimorder init = .ok out) :
+    ∃ recs, tuckerAlsRun realOps nvecs uniform X rank stoptol maxiters dimorder init = .ok (out, recs) := by
+  unfold tuckerAls at h
+  cases hr : tuckerAlsRun realOps nvecs uniform X rank stoptol maxiters dimorder init with
+  | error e => rw [hr] at h; cases h
+  | ok p =>
+    rw [hr] at h
+    obtain ⟨o, recs⟩ := p
+    cases h
+    exact ⟨recs, rfl⟩
+
+/-- Everything the property theorems need about a successful run of `tucker_als`. -/
+structure TaFacts (nvecs : Nat → Dense ℝ → Nat → Nat → Mat ℝ) (X : Dense ℝ) (rank : List Nat) (maxiters : Int)
+    (out : TaOut ℝ) (recs : List (IterRec ℝ)) : Prop where
+  iters : ∃ Uinit, ItersOK nvecs X (parseRank rank X.shape.length) maxiters.toNat 0 Uinit recs
+  pos : 0 ≤ maxiters
+  last : ∃ r, recs.getLast? = some r ∧ RecTA X (parseRank rank X.shape.length) r ∧
+    out.solution = ⟨r.core, r.factors⟩ ∧ out.iters = Gen.itersReported r.iteration ∧
+    out.normresidual = r.normresidual ∧ out.fit = r.fit ∧ r.iteration + 1 = recs.length
+
+theorem tucker_facts {nvecs : Nat → Dense ℝ → Nat → Nat → Mat ℝ} (hC : NvecsContract nvecs)
+    {uniform : Nat → Nat → Nat → Mat ℝ} {X : Dense ℝ} (hX : X.WF) {rank : List Nat}
+    (hR : ∀ n < X.shape.length, (parseRank rank X.shape.length).getD n 0 ≤ X.shape.getD n 0)
+    {stoptol : ℝ} {maxiters : Int} {dimorder : Option (List Nat)} {init : Init ℝ} {out : TaOut ℝ}
+    {recs : List (IterRec ℝ)}
+    (h : tuckerAlsRun realOps nvecs uniform X rank stoptol maxiters dimorder init = .ok (out, recs)) :
+    TaFacts nvecs X rank maxiters out recs := by
+  obtain ⟨hpos, hperm, Uinit, calls, r, hinit, hit, hlast, hsol, _, hiters, hnr, hfit⟩ := tuckerAlsRun_ok h
+  have hI := iterate_ok hC hX hR hperm stoptol _ _ _ _ _ _ (initGuess_length hinit) hit
+  have hmem : r ∈ recs := List.mem_of_getLast? hlast
+  refine ⟨⟨Uinit, hI⟩, hpos, r, hlast, hI.each r hmem, hsol, hiters, hnr, hfit, ?_⟩
+  have hne : recs ≠ [] := List.ne_nil_of_mem hmem
+  have hl : 0 < recs.length := List.length_pos_iff.2 hne
+  have hg : recs[recs.length - 1]'(by omega) = r := by
+    rw [List.getLast?_eq_getElem?] at hlast
+    rw [List.getElem?_eq_getElem (by omega)] at hlast
+    exact Option.some.inj hlast
+  have := hI.numbering (recs.length - 1) (by omega)
+  rw [hg] at this
+  omega
+
 end Tk
 end Pyttb
